@@ -14,7 +14,7 @@ func init() {
 	propFuncs["C19"] = propC19
 	propInfos["C19"] = &PropInfo{
 		Level:   "other",
-		Explain: "Structural necessary conditions decided statically — NOT that the results equal the definition of dominance (that is a fixed point over the paths of an input graph and stays undecided). Decided: IDom follows the Cooper–Harvey–Kennedy iteration the source cites: post-order numbering poNum[po[i]] = i of PostOrder(g, root), reverse post-order processing, all entries start at the -1 sentinel, the root is its own idom during the iteration and is reset to -1 afterwards (pairing), the iteration repeats while something changed, per node the new idom is the first PROCESSED predecessor (idom[p] != -1) intersected with the other processed predecessors, idom[b] is updated exactly when it differs and that sets changed; intersect advances the finger with the smaller post-order number through idom until the fingers meet; DomFrontier goes through the predecessors of b exactly when b is a join (>= 2 predecessors) that is reachable or the root, starts a walk from exactly the predecessors that are reachable or the root (both directions: reach condition ≡ !(len(g.In(b))<2) && !(idom[b]==-1 && b!=root), resp. !(idom[pred]==-1 && pred!=root)), walks runner = pred, runner = idom[runner] while runner != idom[b], adding b to df[runner] once; sentinel discipline (sibling agreement with IDom, which skips predecessors whose idom is -1): between taking a predecessor from g.In(b) and indexing with the walk variable the -1 sentinel must be tested (on the predecessor, or in the walk's condition) — otherwise an unreachable predecessor of a reachable join indexes with -1; Reverse exchanges xs[i] and xs[len-1-i] for i from 0 while i < len-1-i and returns xs (IDom's reverse post-order is Reverse(PostOrder)); DomTree.In(n) = idom[n:n+1]; Dom inverts idom: counts children per parent skipping -1, carves capacity-limited child slices from one backing array, appends each node to its parent's list; engine A: none of them writes its inputs.",
+		Explain: "Structural necessary conditions decided statically — NOT that the results equal the definition of dominance (that is a fixed point over the paths of an input graph and stays undecided). Decided: IDom follows the Cooper–Harvey–Kennedy iteration the source cites: post-order numbering poNum[po[i]] = i of PostOrder(g, root), reverse post-order processing, all entries start at the -1 sentinel, the root is its own idom during the iteration and is reset to -1 afterwards (pairing), the iteration repeats while something changed, per node the new idom is the first PROCESSED predecessor (idom[p] != -1) intersected with the other processed predecessors, idom[b] is updated exactly when it differs and that sets changed; intersect advances the finger with the smaller post-order number through idom until the fingers meet; DomFrontier goes through the predecessors of b exactly when b is a join (>= 2 predecessors) that is reachable or the root, starts a walk from exactly the predecessors that are reachable or the root (both directions: reach condition ≡ !(len(g.In(b))<2) && !(idom[b]==-1 && b!=root), resp. !(idom[pred]==-1 && pred!=root)), walks runner = pred, runner = idom[runner] while runner != idom[b], adding b to df[runner] once; sentinel discipline (sibling agreement with IDom, which skips predecessors whose idom is -1): between taking a predecessor from g.In(b) and indexing with the walk variable the -1 sentinel must be tested (on the predecessor, or in the walk's condition) — otherwise an unreachable predecessor of a reachable join indexes with -1; Reverse exchanges xs[i] and xs[len-1-i] for i from 0 while i < len-1-i and returns xs (IDom's reverse post-order is Reverse(PostOrder)); DomTree.In(n) = idom[n:n+1]; Dom inverts idom: counts children per parent skipping -1, carves capacity-limited child slices from one backing array, appends each node to its parent's list; engine A: none of them writes its inputs. Added after seed round 8 and the mutation sweep: every node and predecessor gone through without early exit, a further walk conjunct holds at every walk's start, scan polarity and coverage, other stores into df only put empty sets where there is none, Dom's carving offsets and capacities as a running sum.",
 		Assume:  []string{"A2", "node ids are non-negative"},
 		Undec:   []string{"that IDom/Dom/DomFrontier equal the definitions of dominance on every graph (the fixed point itself)", "termination on irreducible graphs"},
 	}
